@@ -78,7 +78,30 @@ pub type RawFd = i32;
 pub trait BitmapSlice {}
 pub mod mem { pub fn drop<T>(x: T) {} }
 pub struct PassthroughFs<S> { pub no_opendir: AtomicBool, pub handle_map: HandleMap, pub phantom: PhantomData<S> }
-#[verifier::external_body] pub struct HandleMap { _p: u8 }
+// HandleMap: only the side-table of directory positions matters here.  It is modelled at TWO levels over the same ghost map `ks.cache`: the methods
+// set_cookie / remove_cookie (below), and the table itself - `cookies: Mutex<HashMap<Handle, u64>>` as a lock whose guard offers the HashMap
+// operations - so that code which reaches into the table directly (instead of through the two methods) is still verified, not given up
+pub struct HandleMap { pub cookies: CookieMutex }
+#[verifier::external_body] pub struct CookieMutex { _p: u8 }
+#[verifier::external_body] pub struct CookieLocked<'a> { _p: PhantomData<&'a u8> }
+#[verifier::external_body] pub struct CookieGuard<'a> { _p: PhantomData<&'a u8> }
+impl CookieMutex { #[verifier::external_body] pub fn lock(&self) -> (r: CookieLocked<'_>) { unimplemented!() } }
+impl<'a> CookieLocked<'a> { #[verifier::external_body] pub fn unwrap(self) -> (r: CookieGuard<'a>) { unimplemented!() } }      // locks are never poisoned (sequential model)
+impl<'a> CookieGuard<'a> {
+    #[verifier::external_body] pub fn get(&self, k: &Handle, Tracked(ks): Tracked<&mut KState>) -> (r: Option<&u64>)
+        ensures *final(ks) == *old(ks), r is Some <==> old(ks).cache.dom().contains(*k), r is Some ==> *r->Some_0 == old(ks).cache[*k]
+    { unimplemented!() }
+    #[verifier::external_body] pub fn contains_key(&self, k: &Handle, Tracked(ks): Tracked<&mut KState>) -> (r: bool)
+        ensures *final(ks) == *old(ks), r == old(ks).cache.dom().contains(*k)
+    { unimplemented!() }
+    #[verifier::external_body] pub fn remove(&mut self, k: &Handle, Tracked(ks): Tracked<&mut KState>) -> (r: Option<u64>)
+        ensures final(ks).cache == old(ks).cache.remove(*k), final(ks).pos == old(ks).pos, final(ks).pending == old(ks).pending,
+                r == (if old(ks).cache.dom().contains(*k) { Some(old(ks).cache[*k]) } else { None::<u64> })
+    { unimplemented!() }
+    #[verifier::external_body] pub fn insert(&mut self, k: Handle, v: u64, Tracked(ks): Tracked<&mut KState>) -> (r: Option<u64>)
+        ensures final(ks).cache == old(ks).cache.insert(k, v), final(ks).pos == old(ks).pos, final(ks).pending == old(ks).pending
+    { unimplemented!() }
+}
 
 // ---- names: bytes up to the first NUL (same definitions as in the server prelude)
 #[verifier::opaque]
@@ -731,8 +754,25 @@ GET_DIRDATA = '''    // get_dirdata: the handle's own descriptor, or (no_opendir
 TOK = dict(param='Tracked(ks): Tracked<&mut KState>', arg='Tracked(ks)')
 
 
-def tok(f, callees=('consume_cached_cookie', 'cache_cookie', 'set_cookie', 'remove_cookie')):
+def r85_ref_pattern(body, fired):
+    """R85  reference pattern on a Copy binding (`Some(&x)` matched against an Option<&T>, T: Copy - this Verus has no ref patterns):
+    `Some(&x)` -> `Some(x)` and every other use of `x` in the function -> `(*x)`; same values.  Applies only when `x` is bound nowhere else in the
+    function (no `let x`, no closure parameter `|x|`, no other pattern binding it), otherwise exit 2."""
+    for m in list(re.finditer(r'Some\(&(\w+)\)', X.mask(body))):
+        x = m.group(1)
+        if re.search(r'\blet\s+(mut\s+)?%s\b|\|\s*%s\s*[|:,]' % (x, x), X.mask(body)) or len(re.findall(r'Some\(&%s\)' % x, body)) != 1:
+            raise X.ExtractError('R85: `%s` of a reference pattern is bound more than once' % x)
+        body = body.replace('Some(&%s)' % x, 'Some(%s__refpat)' % x)
+        body = re.sub(r'\b%s\b' % x, '(*%s)' % x, body)
+        body = body.replace('Some(%s__refpat)' % x, 'Some(%s)' % x)
+        fired.append('R85 reference pattern Some(&%s) -> Some(%s), uses of %s dereferenced' % (x, x, x))
+    return body
+
+
+def tok(f, callees=('consume_cached_cookie', 'cache_cookie', 'set_cookie', 'remove_cookie', 'get', 'contains_key', 'remove', 'insert')):
     f.rules = ('R23',)
+    if f.name in ('consume_cached_cookie', 'cache_cookie'):
+        f.body_hooks = [r85_ref_pattern]
     f.ghost_token = dict(TOK, callees=list(callees))
     return f
 
@@ -787,7 +827,7 @@ def unit(root='/repo'):
                         '!res ==> final(buf)@ == old(buf)@ // [C16.skip_to_cookie.notfound]'],
                ret_name='res'),
             tok(Fn(PTS, IMPL, 'consume_cached_cookie', props=['C16'],
-                   splices=[('|cookie|', 'closure', '|cookie: u64| -> (q: bool) ensures q == (cookie == offset), // [C16.cached_cookie.exact]\n')],
+                   splices=[('|cookie|', 'closure?', '|cookie: u64| -> (q: bool) ensures q == (cookie == offset), // [C16.cached_cookie.exact]\n')],
                    ensures=['r ==> !self.no_opendir.cur() && old(ks).cache.dom().contains(handle) && old(ks).cache[handle] == offset // [C16.cached_cookie.exact] a hit only for exactly the cached cookie, never in no_opendir mode',
                             'final(ks).pos == old(ks).pos', 'final(ks).pending == old(ks).pending',
                             'final(ks).cache == (if self.no_opendir.cur() { old(ks).cache } else { old(ks).cache.remove(handle) }) // [C16.cached_cookie.consumed] a stale cookie is dropped'])),
